@@ -7,6 +7,7 @@ verus! {
 //%% include prelude/ddnnfptr.rs
 //%% include-assumed inc/bddptr.rs
 //%% include-assumed inc/varorder.rs
+//%% include trusted/ptreq2.rs
 //%% include trusted/literal.rs
 //%% include trusted/lit_iter.rs
 //%% include trusted/cnf_stub.rs
